@@ -341,8 +341,6 @@ def hypsWide (op : Op) (signed : Bool) (n : Nat) (l r : CV) : List String :=
   let y := mpaOf r
   let m := max x.bits y.bits
   match op with
-  | .add | .sub =>
-    if m + 1 < n then ["wide-addsub-operands-narrower-than-result"] else ["wide-unproved"]
   | .div | .mod =>
     if 0 ≤ x.bigv ∧ 0 ≤ y.bigv ∧ x.bigv < 2 ^ (m - 1) ∧ y.bigv < 2 ^ (m - 1) ∧ y.bigv ≠ 0 then ["wide-unproved"]
     else ["wide-signed-divider-at-operand-size"]
@@ -356,8 +354,7 @@ def hyps (op : Op) (signed : Bool) (n : Nat) (l r : CV) : List String :=
   if n > 64 then hypsWide op signed n l r else
   h "small-operands" (smallOperand n l && (op == .neg || smallOperand (if op.isShift then 0 else n) r)) ++
   (match op with
-   | .add => h "add-size" (decide (n ≤ max (mpaBits l) (mpaBits r))) ++ h "kind" (sameKind l r)
-   | .sub | .mul | .band | .bor | .bxor | .bclr => h "kind" (sameKind l r)
+   | .add | .sub | .mul | .band | .bor | .bxor | .bclr => h "kind" (sameKind l r)
    | .div | .mod => h "nonneg-exact" (cleanNonneg signed n l && cleanNonneg signed n r) ++ h "kind" (sameKind l r)
    | .shl => []
    | .shr => h "extended" (extended signed n l)
